@@ -214,12 +214,31 @@ func (w *FileWriter) generateFieldSchemaCode(field tagparser.FieldInfo, structNa
 		typeName = field.Type.String()
 	}
 
-	// UUID special case
-	if hasUUIDRule(field.Rules) && isStringType(field.Type) {
+	// UUID special case (FromStruct keeps the first format rule of a tag: a
+	// `url` in front of the `uuid` takes the URL special case below)
+	if hasUUIDRule(field.Rules) && isStringType(field.Type) && firstFormatRule(field.Rules) != "url" {
 		var b strings.Builder
 		b.WriteString("gozod.UUID()")
 		for _, rule := range field.Rules {
-			if rule.Name != "uuid" {
+			if rule.Name != "uuid" && rule.Name != "url" {
+				if code := generateValidatorChain(rule, field.Type); code != "" {
+					b.WriteString(code)
+				}
+			}
+		}
+		if !field.Required {
+			b.WriteString(".Optional()")
+		}
+		return b.String(), nil
+	}
+
+	// URL special case: the string schema has no URL method; gozod.URL() is
+	// the string schema with the URL format (what FromStruct uses).
+	if firstFormatRule(field.Rules) == "url" && isStringType(field.Type) && findEnumRule(field.Rules) == nil {
+		var b strings.Builder
+		b.WriteString("gozod.URL()")
+		for _, rule := range field.Rules {
+			if rule.Name != "url" {
 				if code := generateValidatorChain(rule, field.Type); code != "" {
 					b.WriteString(code)
 				}
@@ -615,6 +634,17 @@ func hasUUIDRule(rules []tagparser.TagRule) bool {
 		}
 	}
 	return false
+}
+
+// firstFormatRule returns the first of the format rules with a constructor of
+// their own ("uuid", "url") in rules, or "".
+func firstFormatRule(rules []tagparser.TagRule) string {
+	for _, rule := range rules {
+		if rule.Name == "uuid" || rule.Name == "url" {
+			return rule.Name
+		}
+	}
+	return ""
 }
 
 // findEnumRule returns the enum rule if present, or nil.
